@@ -5,6 +5,7 @@
 #include "vh_main.hpp"
 #include "apitable.hpp"
 #include <fstream>
+#include <sys/mman.h>
 using namespace vh;
 
 namespace {
@@ -146,7 +147,129 @@ void explore_features(Ctx &ctx) {
     if (ctx.mine(idx++)) { FCase c{ F_ALL, 3 }; exec_case(ctx, c, run_feat, 3, true); }
 }
 
+// ------------------------------------------------------------------ inputs whose bit length (>= 2^29 bytes) or byte length (>= 2^32) no longer fits 32 bits
+// Length blocks, bit counters and block counters of every backend are 64-bit quantities; below 512 MiB their upper halves are always zero.
+const char *HN[] = { "aegis128l(ad)", "aegis256(ad)", "chacha20poly1305_ietf(ad)", "xchacha20poly1305_ietf(ad)", "generichash", "onetimeauth", "hash_sha256", "hash_sha512", "auth_hmacsha512256", "shorthash", "aes256gcm(ad)", "auth_hmacsha256", "generichash(stream)" };
+enum { NHUGE = 13 };
+struct HugeCase {
+    int what; size_t len; unsigned long mask, refmask;
+    KV kv() const { KV k; k.s("kind", "huge").u("what", what).s("name", HN[what]).u("len", len).u("mask", mask).u("refmask", refmask); return k; }
+};
+uint8_t *huge_buf(size_t len) {
+    static uint8_t *p = nullptr; static size_t n = 0;
+    if (p && n >= len) return p;
+    if (p) munmap(p, n);
+    void *q = mmap(nullptr, len + 64, PROT_READ | PROT_WRITE, MAP_PRIVATE | MAP_ANONYMOUS, -1, 0);
+    if (q == MAP_FAILED) { p = nullptr; n = 0; return nullptr; }
+    p = (uint8_t *) q; n = len;
+    uint64_t x = 0x9e3779b97f4a7c15ULL; uint64_t *w = (uint64_t *) p;
+    for (size_t i = 0; i < (len + 64) / 8; i++) { x ^= x << 13; x ^= x >> 7; x ^= x << 17; w[i] = x; }
+    return p;
+}
+bool huge_eval(int what, size_t len, unsigned long mask, uint64_t &digest) {
+    uint8_t *in = huge_buf(len); if (!in) return false;
+    set_mask(mask);
+    unsigned char key[64], npub[32], m[16], out[16 + 64], mac[32]; unsigned long long l = 0;
+    for (int i = 0; i < 64; i++) key[i] = (unsigned char) (i * 7 + 1); for (int i = 0; i < 32; i++) npub[i] = (unsigned char) (0xa0 + i); for (int i = 0; i < 16; i++) m[i] = (unsigned char) i;
+    memset(out, 0, sizeof out); memset(mac, 0, sizeof mac);
+    int rc = 0;
+    switch (what) {
+    case 0: rc = crypto_aead_aegis128l_encrypt_detached(out, mac, &l, m, 16, in, len, nullptr, npub, key); break;
+    case 1: rc = crypto_aead_aegis256_encrypt_detached(out, mac, &l, m, 16, in, len, nullptr, npub, key); break;
+    case 2: rc = crypto_aead_chacha20poly1305_ietf_encrypt_detached(out, mac, &l, m, 16, in, len, nullptr, npub, key); break;
+    case 3: rc = crypto_aead_xchacha20poly1305_ietf_encrypt_detached(out, mac, &l, m, 16, in, len, nullptr, npub, key); break;
+    case 4: rc = crypto_generichash(out, 64, in, len, key, 32); break;
+    case 5: rc = crypto_onetimeauth(out, in, len, key); break;
+    case 6: rc = crypto_hash_sha256(out, in, len); break;
+    case 7: rc = crypto_hash_sha512(out, in, len); break;
+    case 8: rc = crypto_auth_hmacsha512256(out, in, len, key); break;
+    case 9: rc = crypto_shorthash(out, in, len, key); break;
+    case 10: if (!crypto_aead_aes256gcm_is_available()) return false; rc = crypto_aead_aes256gcm_encrypt_detached(out, mac, &l, m, 16, in, len, nullptr, npub, key); break;
+    case 11: rc = crypto_auth_hmacsha256(out, in, len, key); break;
+    default: { crypto_generichash_state st; crypto_generichash_init(&st, key, 17, 48); size_t h = len / 2 + 3; crypto_generichash_update(&st, in, h); crypto_generichash_update(&st, in + h, len - h); rc = crypto_generichash_final(&st, out, 48); break; }
+    }
+    digest = mix64(hash_bytes(out, sizeof out), mix64(hash_bytes(mac, sizeof mac), (uint64_t) (rc + 5)));
+    return true;
+}
+uint64_t g_huge_skipped = 0;
+bool run_huge(const HugeCase &c, std::string &msg) {
+    uint64_t a = 0, b = 0;
+    if (!huge_eval(c.what, c.len, c.refmask, a) || !huge_eval(c.what, c.len, c.mask, b)) { g_huge_skipped++; return true; }
+    if (a != b) { char t[300]; snprintf(t, sizeof t, "%s over %zu bytes: output / return code under CPU mask 0x%lx differs from that under mask 0x%lx", HN[c.what], c.len, c.mask, c.refmask); msg = t; return false; }
+    return true;
+}
+void explore_huge(Ctx &ctx) {
+    std::ofstream xb;
+    if (!ctx.out.empty()) xb.open(ctx.out + ".xb", std::ios::app);
+    uint64_t idx = 0;
+    std::vector<size_t> lens = { ((size_t) 1 << 29) + 77 };
+    if (ctx.thorough()) lens.push_back(((size_t) 1 << 32) + 5);
+    std::vector<unsigned long> masks; for (auto &m : mask_set(true)) if (m.name == "-avx2" || m.name == "-sse41" || m.name == "-ssse3" || m.name == "all-aes") masks.push_back(m.mask);
+    for (size_t len : lens) for (int what = 0; what < NHUGE; what++) {
+        bool aegis = what <= 1;
+        bool fast_build = std::string(VERIF_FLAVOUR) == "plain" || std::string(VERIF_FLAVOUR) == "plainclang";
+        if (aegis && (!ctx.thorough() || !fast_build || len > ((size_t) 1 << 30))) continue;        // software AES over 512 MiB takes tens of seconds: thorough tier, non-sanitizer builds, never 4 GiB
+        if (len > ((size_t) 1 << 30) && !fast_build) continue;                                       // 4 GiB through a sanitizer build takes minutes per call
+        if (len > ((size_t) 1 << 30) && !(what == 2 || what == 4 || what == 5 || what == 6 || what == 7)) continue;      // 4 GiB: the length-block / counter users only
+        if (len > ((size_t) 1 << 30) ? ctx.worker != 0 : !ctx.mine(idx++)) continue;    // one 4 GiB buffer per build at most
+        unsigned long ref = what == 10 ? F_ALL : 0;
+        std::vector<unsigned long> ms = { F_ALL };
+        if (what == 4 || what == 12) for (unsigned long m : masks) ms.push_back(m);    // BLAKE2b has four compression backends
+        if (what == 10) ms = { F_ALL };
+        for (unsigned long m : ms) { if (m == ref && what != 10) continue; HugeCase c{ what, len, m, ref }; exec_case(ctx, c, run_huge, mix64(mix64(what, len), m), true); }
+        uint64_t d = 0;
+        if (xb.is_open() && huge_eval(what, len, ref, d)) xb << std::hex << d << std::dec << "\tkind=huge;what=" << what << ";len=" << len << ";refmask=" << ref << "\n";
+    }
+    ctx.notes["huge_input_cases_skipped"] = std::to_string(g_huge_skipped);
+}
+
+// ------------------------------------------------------------------ constant accessor functions
+// ~280 exported functions only return a documented constant (crypto_secretbox_keybytes() = crypto_secretbox_KEYBYTES ...).  They are
+// deterministic public functions like any other: each must return the value of the macro that documents it, in every build.
+struct GCase { int idx; KV kv() const { KV k; k.s("kind", "getter").u("idx", idx); return k; } };
+struct GRow { const char *name; const char *macro; bool is_str; unsigned long long fn_num, mac_num; const char *fn_str, *mac_str; };
+std::vector<GRow> &getters() {
+    static std::vector<GRow> v;
+    if (!v.empty()) return v;
+#define GETTER_NUM(F, M) v.push_back(GRow{ #F, #M, false, (unsigned long long) F(), (unsigned long long) (M), nullptr, nullptr });
+#define GETTER_STR(F, M) v.push_back(GRow{ #F, #M, true, 0, 0, (const char *) F(), (const char *) (M) });
+#define GETTER(F, M, K) GETTER_##K(F, M)
+#include "getters.inc"
+#undef GETTER
+    return v;
+}
+bool run_getter(const GCase &c, std::string &msg) {
+    const GRow &g = getters()[(size_t) c.idx];
+    char b[400];
+    if (g.is_str ? (g.fn_str == nullptr || strcmp(g.fn_str, g.mac_str) != 0) : g.fn_num != g.mac_num) {
+        if (g.is_str) snprintf(b, sizeof b, "%s() returns \"%s\", the documented constant %s is \"%s\"", g.name, g.fn_str ? g.fn_str : "(null)", g.macro, g.mac_str);
+        else snprintf(b, sizeof b, "%s() returns %llu, the documented constant %s is %llu", g.name, g.fn_num, g.macro, g.mac_num);
+        msg = b; return false;
+    }
+    return true;
+}
+void explore_getters(Ctx &ctx) {
+    std::ofstream xb;
+    if (!ctx.out.empty() && ctx.worker == 0) xb.open(ctx.out + ".xb", std::ios::app);
+    auto &G = getters();
+    uint64_t d = 0x6e77;
+    for (size_t i = 0; i < G.size(); i++) {
+        d = mix64(d, G[i].is_str ? hash_str(G[i].fn_str ? G[i].fn_str : "") : G[i].fn_num);
+        if (!ctx.mine(i)) continue;
+        GCase c{ (int) i };
+        exec_case(ctx, c, run_getter, mix64(i, 0x6e), true);
+    }
+    if (xb.is_open()) xb << std::hex << d << std::dec << "\tkind=getters;refmask=0\n";
+}
+
 bool replay(const KV &k, std::string &msg) {
+    if (k.gs("kind") == "getter") { GCase c{ (int) k.gu("idx") }; return run_getter(c, msg); }
+    if (k.gs("kind") == "getters") { uint64_t d = 0x6e77; for (auto &g : getters()) d = mix64(d, g.is_str ? hash_str(g.fn_str ? g.fn_str : "") : g.fn_num); printf("XB-DIGEST %016llx\n", (unsigned long long) d); return true; }
+    if (k.gs("kind") == "huge") {
+        HugeCase c{ (int) k.gu("what"), (size_t) k.gu("len"), k.has("mask") ? (unsigned long) k.gu("mask") : (unsigned long) k.gu("refmask"), (unsigned long) k.gu("refmask") };
+        if (k.gs("sub") == "xbuild") { uint64_t d = 0; huge_eval(c.what, c.len, c.refmask, d); printf("XB-DIGEST %016llx\n", (unsigned long long) d); return true; }
+        return run_huge(c, msg);
+    }
     if (k.gs("kind") == "features") { FCase c{ (unsigned long) k.gu("mask"), (int) k.gu("what") }; return run_feat(c, msg); }
     Case c; c.entry = -1;
     for (size_t i = 0; i < api::table().size(); i++) if (k.gs("entry") == api::table()[i].name) c.entry = (int) i;
@@ -165,4 +288,4 @@ void explore_masks_xb(Ctx &ctx) {
 
 }  // namespace
 
-std::vector<Sub> vh_subs() { return { { "features", explore_features, replay }, { "masks", explore_masks_xb, replay }, { "xbuild", [](Ctx &) {}, replay } }; }
+std::vector<Sub> vh_subs() { return { { "features", explore_features, replay }, { "masks", explore_masks_xb, replay }, { "huge_inputs", explore_huge, replay }, { "constants", explore_getters, replay }, { "xbuild", [](Ctx &) {}, replay } }; }
